@@ -80,6 +80,13 @@ func goid() int64 {
 
 var envActions = map[string]bool{"run": true, "stop": true, "dial": true, "close": true, "send": true, "release": true, "panic": true, "reset": true, "hold_onclose": true, "release_onclose": true, "sendpartial": true, "stopreading": true, "probe": true, "sleep": true, "timeout": true}
 
+type keptReq struct {
+	req  *gldap.Request
+	conn int
+	c    string
+	i    int
+}
+
 type framePlan struct {
 	c     string
 	i     int
@@ -137,6 +144,7 @@ type runner struct {
 	gates                 map[string]int
 	gateHook              func(point string, ids ...int)
 	readTimeout           time.Duration
+	kept                  []keptReq // requests the application keeps after their handlers have returned (an audit queue, say)
 	t0                    time.Time
 	extraConns            int
 }
@@ -344,6 +352,9 @@ func (r *runner) handler(w *gldap.ResponseWriter, req *gldap.Request) {
 		r.started[c][i] = true
 	}
 	r.mu.Unlock()
+	r.mu.Lock()
+	r.kept = append(r.kept, keptReq{req: req, conn: req.ConnectionID(), c: c, i: i})
+	r.mu.Unlock()
 	atomic.AddInt64(&r.inflight, 1)
 	hv := ""
 	if p != nil && p.hold {
@@ -490,6 +501,10 @@ func (r *runner) frameBytes(cl *sClient, e sEvent) []byte {
 		}
 		return b
 	case "unbind":
+		if r.scen.Cfg["unbind_same_id"] == "1" && e.I > 1 {
+			// an Unbind that carries the message id of the request sent just before it (which may still be in progress)
+			id = msgID(cl.idx, e.I-1)
+		}
 		return lx.Envelope(id, lx.UnbindReq(), nil).Encode()
 	case "bad":
 		switch (int64(e.I) + r.seed) % 3 {
@@ -659,12 +674,14 @@ func (r *runner) step(e sEvent) {
 		}
 		mode := r.scen.Cfg["tls"]
 		switch {
-		case (mode == "tls" || mode == "mtls" || mode == "mtls-vc") && (kind == "valid" || kind == "nocert" || kind == "wrongca"):
+		case (mode == "tls" || mode == "mtls" || mode == "mtls-vc" || mode == "anycert") && (kind == "valid" || kind == "nocert" || kind == "wrongca"):
 			cfg := r.tlsCli.Clone()
 			switch {
 			case kind == "wrongca":
-				cfg.Certificates = []tls.Certificate{r.wrongCert}
-			case kind == "valid" && (mode == "mtls" || mode == "mtls-vc"):
+				// presented whatever list of acceptable CAs the server announces
+				wc := r.wrongCert
+				cfg.GetClientCertificate = func(*tls.CertificateRequestInfo) (*tls.Certificate, error) { return &wc, nil }
+			case kind == "valid" && (mode == "mtls" || mode == "mtls-vc" || mode == "anycert"):
 				cfg.Certificates = []tls.Certificate{r.clientCert}
 			}
 			conn, err = lx.DialTLS(r.addr, cfg, 3*time.Second)
@@ -705,6 +722,17 @@ func (r *runner) step(e sEvent) {
 			return
 		}
 		_ = cl.conn.SendRaw(r.planFrame(e))
+		if r.scen.Cfg["wait_write_blocked"] == "1" && cl.isNoRead() {
+			// let the handler of this request get as far as it can: inside Write, blocked, holding the connection's write lock
+			// (synchronisation only: the first one reaches the gate, the later ones queue behind it)
+			r.mu.Lock()
+			first := r.gates["write.locked"] == 0
+			r.mu.Unlock()
+			if first {
+				r.waitGate("write.locked", 1)
+			}
+			time.Sleep(120 * time.Millisecond)
+		}
 	case "sendmany": // several frames in one write (coalesced sends)
 	case "release":
 		r.mu.Lock()
@@ -902,11 +930,19 @@ func runScenario(sc *sScenario, out *hx.Out, seed int64, tlsSrv, tlsCli *tls.Con
 			defer runtime.GOMAXPROCS(runtime.GOMAXPROCS(n))
 		}
 	}
-	if m := sc.Cfg["tls"]; m == "tls" || m == "starttls" || m == "mtls" || m == "mtls-vc" {
+	if m := sc.Cfg["tls"]; m == "tls" || m == "starttls" || m == "mtls" || m == "mtls-vc" || m == "anycert" {
 		tm := getTLSMaterial()
 		r.tlsSrv, r.tlsCli, r.clientCert, r.wrongCert = tm.server, tm.client, tm.clientCert, tm.wrongCert
 		if m == "mtls" {
 			r.tlsSrv = tm.serverMTLS
+		}
+		if m == "anycert" {
+			// a client certificate is required, any will do (the CA pool is set all the same, as configurations that
+			// verify elsewhere have it)
+			cfg := tm.server.Clone()
+			cfg.ClientAuth = tls.RequireAnyClientCert
+			cfg.ClientCAs = tm.serverMTLS.ClientCAs
+			r.tlsSrv = cfg
 		}
 		if m == "mtls-vc" {
 			// the same requirement expressed the other way crypto/tls offers: any client certificate is asked for and the
@@ -933,6 +969,9 @@ func runScenario(sc *sScenario, out *hx.Out, seed int64, tlsSrv, tlsCli *tls.Con
 			r.mu.Lock()
 			if m, err := req.GetUnbindMessage(); err == nil {
 				i = int(m.GetID() % 1000)
+				if r.scen.Cfg["unbind_same_id"] == "1" {
+					i = req.ID // (the message id is the previous request's there)
+				}
 				for _, cl := range r.clients {
 					if int64(cl.idx) == m.GetID()/1000 {
 						c = cl.tag
@@ -1021,7 +1060,7 @@ func runScenario(sc *sScenario, out *hx.Out, seed int64, tlsSrv, tlsCli *tls.Con
 	}
 	cfgJSON, _ := json.Marshal(sc.Cfg)
 	gldap.SetVerifGate(func(point string, ids ...int) {
-		if point == "run.registered" || point == "run.accepted" {
+		if point == "run.registered" || point == "run.accepted" || point == "write.locked" {
 			r.mu.Lock()
 			r.gates[point]++
 			r.cond.Broadcast()
@@ -1139,6 +1178,16 @@ func runScenario(sc *sScenario, out *hx.Out, seed int64, tlsSrv, tlsCli *tls.Con
 }
 
 func (r *runner) finish() {
+	// C09: asked again at the end of the scenario (connections have come and gone since), a kept request still reports the
+	// connection ID it reported to its handler
+	r.mu.Lock()
+	kept := append([]keptReq(nil), r.kept...)
+	r.mu.Unlock()
+	for _, k := range kept {
+		if now := k.req.ConnectionID(); now != k.conn {
+			r.emit(tEvent{Ev: "connid_changed", C: k.c, I: k.i, Conn: now, N: k.conn})
+		}
+	}
 	stopped := false
 	r.mu.Lock()
 	for _, ch := range r.stopRet {
